@@ -60,9 +60,10 @@ def create_mcmc(joint, parameters, parameters_unres, arg):
     }
 
     for param in parameters_unres:
-        if param["id"].endswith("theta.log") and arg.coalescent in (
-            "skygrid",
-            "piecewise-constant",
+        if (
+            param["id"].endswith("theta.log")
+            and arg.coalescent in ("skygrid", "piecewise-constant")
+            and not arg.gmrf_integrated
         ):
             operator = create_block_updating_operator(
                 param["id"], "gmrf", "coalescent", arg
